@@ -8,6 +8,12 @@ from .extract import conc, leaf_where, value_atoms, writers_of, returns_mut_ref_
 ED = 'EventDecoder'
 
 
+
+# names of the public operations the properties speak about; anything else public is an API extension
+KNOWN_API = {'add_bit', 'add_word', 'add_byte', 'clear', 'set_ctrl_handling', 'get_ctrl_handling', 'get_modifiers',
+             'change_layout', 'process_keyevent', 'new', 'map_keycode', 'advance_state', 'default',
+             'is_shifted', 'is_ctrl', 'is_alt', 'is_altgr', 'is_caps'}
+
 def load_keys():
     with open(os.path.join(VERIF, 'reference', 'keys.json')) as f:
         return json.load(f)
@@ -242,9 +248,6 @@ def check_modifiers(ctx, rep, tier):
             continue
         todo |= public_roots(p)
     rep.analysed['modifier_writers_reachable_from_public'] = sorted(todo)
-    KNOWN_API = {'add_bit', 'add_word', 'add_byte', 'clear', 'set_ctrl_handling', 'get_ctrl_handling', 'get_modifiers',
-                 'change_layout', 'process_keyevent', 'new', 'map_keycode', 'advance_state', 'default',
-                 'is_shifted', 'is_ctrl', 'is_alt', 'is_altgr', 'is_caps'}
     for p in sorted(todo):
         f = ctx.prog.fns[p]
         if f.get('derived'):
